@@ -157,7 +157,7 @@ class PopGen(object):
             return ('null',)
         return v
 
-    def ref_to(self, ename, self_id, from_select=False):
+    def ref_to(self, ename, self_id, from_select=False, select_entities=()):
         cands = [i for i, m in self.member.items() if ename in m]
         if not self.ok('ref_cycle'):
             # acyclic populations only: references go to instances planned earlier
@@ -165,7 +165,15 @@ class PopGen(object):
         if from_select and not self.ok('select_ref_complex'):
             cands = [i for i in cands if i not in self.complex_ids]
         if from_select and not self.ok('select_ref_secondary_super'):
-            cands = [i for i in cands if i in self.complex_ids or ename in self.primary_chain(self.simple_entity[i])]
+            # the generated AssignEntity tests the select's entity members IN ORDER with IsA() and static-casts to the first hit:
+            # every member the instance is-a must lie on its first-supertype chain (the only C++ base classes)
+            def safe(i):
+                if i in self.complex_ids:
+                    return True
+                en = self.simple_entity[i]
+                chain = self.primary_chain(en)
+                return all(m in chain for m in set(select_entities) | {ename} if self.s.is_a(en, m))
+            cands = [i for i in cands if safe(i)]
         if not cands:
             return None
         return ('ref', self.rng.choice(cands))
@@ -228,7 +236,7 @@ class PopGen(object):
         leaves = s.select_leaves(td)
         kw, lt = rng.choice(leaves)
         if kw is None:
-            r = self.ref_to(lt.name, self_id, True)
+            r = self.ref_to(lt.name, self_id, True, [x[1].name for x in leaves if x[0] is None])
             if r is not None:
                 return r
             kwl = [x for x in leaves if x[0] is not None]
